@@ -254,6 +254,16 @@ class Validator:
             else:
                 pd = d["__position__"][key]
 
+            if isinstance(pd, list):
+                # a repeatable keyword (PROCESSING, FORMATOPTION, ...) or repeated POINTS
+                # has one position per occurrence - use the one the error path points at
+                keypos = max((i for i, p in enumerate(path) if p == key), default=None)
+                occ = 0
+                if keypos is not None and keypos + 1 < len(path):
+                    if isinstance(path[keypos + 1], int):
+                        occ = path[keypos + 1]
+                pd = pd[occ] if occ < len(pd) else pd[-1]
+
             error_dict["line"] = pd.get("line")
             error_dict["column"] = pd.get("column")
 
